@@ -351,7 +351,8 @@ def run(chk: common.Check):
         rule=("obligations = theorems of coq/props/C06.v (all relabellings preserving the compared keys, all structures; inventory of attribute reads "
               "by vm_compute over the re-extracted table). Tie: Group.__eq__ on sampled pairs vs group_eq. Search: monotone chain renaming, per-chain "
               "shifts (negative; +/-1000 with adjacent chain ids), file-order renumbering, created twins; every number compared bit for bit, "
-              "determinant partners by position. distinct = (structure, relabelling)"),
+              "determinant partners by position. distinct = (structure, relabelling)"
+              " Added in rounds 4-6: digit chain identifiers, a two-chain alternate-location input renumbered to overlap, order-changing relabellings compared to rounding, an asymmetrically evaluated HIS->ASN pair in two chains, a hetero group without chain identifier, labels quoted in -c / --titrate_only."),
         assumptions=["labels are modelled as the tuple (residue type, number, chain); the formatted text '{:<3s}{:>4d}{:>2s}' is injective on PDB field ranges",
                      "the theorems cover the comparisons on residue identity; that nothing else reads the labels is the search's part"],
         trusted=["tools/vlib/tables.py attribute-read extractor", "model/Labels.v hand model"])
